@@ -4,11 +4,87 @@ sys.path.insert(0, os.path.dirname(__file__))
 from _common import main, j2b, b2j
 import iso_common as R
 
-BOUND = 'every single configured element and every pair of elements (values sampled incl. boundary lengths 1, max), larger subsets sampled; over-length variable values; latin_1/cp500/cp037; binary and hex bitmap; PDS sets; compared byte-for-byte and key-for-key with a reference codec written from the documentation'
+BOUND = 'caller-owned configuration edited in place / copied and edited / re-ordered between calls (8 edits, chains of up to 4); every single configured element and every pair of elements (values sampled incl. boundary lengths 1, max), larger subsets sampled; over-length variable values; latin_1/cp500/cp037; binary and hex bitmap; PDS sets; compared byte-for-byte and key-for-key with a reference codec written from the documentation'
 
 
 def norm(v):
     return v
+
+
+def check_msg(msg, cfg, enc, hexb, kw):
+    """dumps / loads of one message against the reference codec under configuration cfg (kw: how cfg is passed to the library)"""
+    from cardutil import iso8583
+    try:
+        want = R.ref_encode(msg, cfg, enc, hexb)
+    except R.Refuse:
+        want = None
+    try:
+        got = iso8583.dumps(dict(msg), encoding=enc, hex_bitmap=hexb, **kw)
+    except iso8583.Iso8583DataError:
+        got = None
+    keys = sorted(k for k in msg)
+    if want is None:
+        return None if got is None else 'refusal: value the layout cannot represent was emitted (keys %s)' % keys
+    if got is None:
+        return 'refusal: representable message refused (keys %s, %s)' % (keys, enc)
+    if got != want:
+        i = next((i for i in range(min(len(got), len(want))) if got[i] != want[i]), min(len(got), len(want)))
+        return 'layout: dumps differs from the documented layout at byte %d (keys %s, %s, hex=%s)' % (i, keys, enc, hexb)
+    back = iso8583.loads(got, encoding=enc, hex_bitmap=hexb, **kw)
+    ref = R.ref_decode(got, cfg, enc, hexb)
+    for k, v in msg.items():
+        if k.startswith('DE') and cfg[k[2:]].get('field_processor') in ('PAN', 'PAN-PREFIX'):
+            continue
+        if k.startswith('DE') and isinstance(v, str) and R.ls_of(cfg[k[2:]]) == 0 and not cfg[k[2:]].get('field_python_type'):
+            v = v[:cfg[k[2:]]['field_length']].ljust(cfg[k[2:]]['field_length'])     # fixed text comes back space-padded
+        if k not in back or back[k] != v:
+            return 'roundtrip: key %s came back as %r, sent %r (%s, hex=%s)' % (k, back.get(k), v if not isinstance(v, (str, bytes)) or len(v) < 30 else v[:30], enc, hexb)
+    for k, v in ref.items():
+        if k != '__framing__' and back.get(k) != v:
+            return 'decode: key %s decoded as %r, independent reading gives %r' % (k, back.get(k), v)
+    for k in back:
+        if k not in ref and not (k.startswith('DE43_') or k.startswith('TAG') or k == 'ICC_DATA'):
+            return 'decode: undocumented extra key %s' % k
+    return None
+
+
+EDITS = {
+    # the documented ways of adapting a configuration: the caller owns the dictionary
+    'pds48-off': lambda c: c['48'].pop('field_processor', None),                 # DE48 becomes plain text, DE62 the first PDS carrier
+    'pds72-on': lambda c: c['72'].__setitem__('field_processor', 'PDS'),
+    'no-48': lambda c: c.pop('48', None),
+    '72-llvar': lambda c: c['72'].__setitem__('field_type', 'LLVAR'),
+    '93-lllvar': lambda c: c['93'].__setitem__('field_type', 'LLLVAR'),
+    'pan2-on': lambda c: c['2'].__setitem__('field_processor', 'PAN'),
+    'pan2-off': lambda c: c['2'].pop('field_processor', None),
+    '3-wider': lambda c: c['3'].__setitem__('field_length', 8),
+}
+
+
+def check_history(inp):
+    """one caller-owned configuration over several calls: edited in place, replaced by an edited copy, or re-ordered between
+    calls; every call must behave as the configuration it is given says NOW"""
+    import copy
+    enc, hexb = inp['enc'], inp['hex']
+    cfg = copy.deepcopy({k: dict(v) for k, v in R.packaged().items()})
+    msg = {'MTI': '1144', 'DE2': '4444555566667777', 'DE3': '123456', 'DE72': 'h', 'DE93': 'ABCDEFGH00', 'PDS0023': 'x' * 10, 'PDS0158': 'yy '}
+    r = check_msg(msg, cfg, enc, hexb, {'iso_config': cfg})
+    if r:
+        return 'history: first use of a custom configuration: ' + r
+    for how, edit in inp['stages']:
+        if how == 'copy':
+            cfg = copy.deepcopy(cfg)            # a new object with the same keys
+        elif how == 'reorder':
+            cfg = {k: cfg[k] for k in sorted(cfg)}          # same entries, text-sorted key order
+        if edit:
+            EDITS[edit](cfg)
+        m = {k: v for k, v in msg.items() if not (k.startswith('DE') and cfg.get(k[2:], {}).get('field_processor') == 'PDS')}      # carriers are not supplied as text
+        if '48' not in cfg and not any(c.get('field_processor') == 'PDS' for c in cfg.values()):
+            m = {k: v for k, v in m.items() if not k.startswith('PDS')}
+        r = check_msg(m, cfg, enc, hexb, {'iso_config': cfg})
+        if r:
+            return 'history: after [%s %s] on a configuration used before: %s' % (how, edit, r)
+    return None
 
 
 def oracle(inp):
@@ -23,38 +99,9 @@ def oracle(inp):
             if isinstance(v, dict) and '__dt__' in v:
                 v = datetime.datetime.strptime(v['__dt__'], '%Y-%m-%d %H:%M:%S')
             msg[k] = v
-        try:
-            want = R.ref_encode(msg, cfg, enc, hexb)
-        except R.Refuse:
-            want = None
-        try:
-            got = iso8583.dumps(dict(msg), encoding=enc, hex_bitmap=hexb)
-        except iso8583.Iso8583DataError:
-            got = None
-        keys = sorted(k for k in msg)
-        if want is None:
-            return None if got is None else 'refusal: value the layout cannot represent was emitted (keys %s)' % keys
-        if got is None:
-            return 'refusal: representable message refused (keys %s, %s)' % (keys, enc)
-        if got != want:
-            i = next((i for i in range(min(len(got), len(want))) if got[i] != want[i]), min(len(got), len(want)))
-            return 'layout: dumps differs from the documented layout at byte %d (keys %s, %s, hex=%s)' % (i, keys, enc, hexb)
-        back = iso8583.loads(got, encoding=enc, hex_bitmap=hexb)
-        ref = R.ref_decode(got, cfg, enc, hexb)
-        for k, v in msg.items():
-            if k.startswith('DE') and cfg[k[2:]].get('field_processor') in ('PAN', 'PAN-PREFIX'):
-                continue
-            if k.startswith('DE') and isinstance(v, str) and R.ls_of(cfg[k[2:]]) == 0 and not cfg[k[2:]].get('field_python_type'):
-                v = v[:cfg[k[2:]]['field_length']].ljust(cfg[k[2:]]['field_length'])     # fixed text comes back space-padded
-            if k not in back or back[k] != v:
-                return 'roundtrip: key %s came back as %r, sent %r (%s, hex=%s)' % (k, back.get(k), v if not isinstance(v, (str, bytes)) or len(v) < 30 else v[:30], enc, hexb)
-        for k, v in ref.items():
-            if k != '__framing__' and back.get(k) != v:
-                return 'decode: key %s decoded as %r, independent reading gives %r' % (k, back.get(k), v)
-        for k in back:
-            if k not in ref and not (k.startswith('DE43_') or k.startswith('TAG') or k == 'ICC_DATA'):
-                return 'decode: undocumented extra key %s' % k
-        return None
+        return check_msg(msg, cfg, enc, hexb, {})
+    if kind == 'history':
+        return check_history(inp)
     if kind == 'custom-int':
         W, v = inp['W'], inp['v']
         c = {'2': {'field_name': 'n', 'field_type': 'FIXED', 'field_length': W, 'field_python_type': 'long'},
@@ -93,6 +140,14 @@ def oracle(inp):
 
 
 def cases(tier, rng):
+    # configuration histories first (cheap): edits in place / on a copy / re-ordered, between calls
+    for enc, hexb in (('latin_1', False), ('cp500', True)):
+        for how in ('in-place', 'copy'):
+            for e1 in EDITS:
+                yield {'kind': 'history', 'enc': enc, 'hex': hexb, 'stages': [[how, e1]]}
+            yield {'kind': 'history', 'enc': enc, 'hex': hexb, 'stages': [[how, 'pds48-off'], [how, 'pds72-on'], ['copy', '72-llvar'], ['in-place', 'pan2-off']]}
+            yield {'kind': 'history', 'enc': enc, 'hex': hexb, 'stages': [[how, 'no-48'], ['reorder', None], [how, '93-lllvar']]}
+        yield {'kind': 'history', 'enc': enc, 'hex': hexb, 'stages': [['reorder', None]]}
     cfg = R.packaged()
     bits = sorted(int(b) for b in cfg if b != '1' and cfg[b].get('field_processor') != 'PDS')
 
